@@ -144,8 +144,33 @@ def correspond(ctx):
                     fail("Debug of object %s changed after sampling: %s -> %s" % (k, dbg[k][:100], res[:100])); break
                 dbg[k] = res
             if op[0] in "SI": nsamples += 1
+    # vector samplers: the result must not depend on what the output buffer held before (sample_to_slice into a REUSED buffer
+    # vs sample() on the same stream), and repeated identical calls must agree
+    import c11
+    vlines = []
+    for ty in ("f64", "f32"):
+        for k in range(60 if tier == "quick" else 2000):
+            a = c11.alpha_vec(rng, ty)
+            if k % 3 == 0: a = tuple(S.f_round(ty, x) for x in [1e-3 if ty == "f64" else 1e-2] * len(a))   # tiny alphas: Beta draws round to 1
+            w = ",".join("%x" % x for x in S.random_words(rng, 8))
+            vlines.append("multi dirichlet %s %s %x %s" % (ty, ",".join(S.f_bits(ty, v) for v in a), rng.u64(), w))
+    for fam in ("unitcircle", "unitdisc", "unitsphere", "unitball"):
+        for ty in ("f64", "f32"):
+            for k in range(5):
+                vlines.append("multi %s %s - %x -" % (fam, ty, rng.u64()))
+    vouts = run_harness_guarded_parallel(ctx["binary"], vlines + vlines, batch_timeout=300, line_timeout=30, chunk=50)
+    half = len(vlines)
+    for i, line in enumerate(vlines):
+        a, b = vouts[i], vouts[half + i]
+        if a != b:
+            oracle_failures.append({"property": PID, "class": "purity", "harness_line": line[:400], "what": "two identical calls returned different results: %s vs %s" % (a[:150], b[:150])})
+        elif "|" in a and not a.startswith("E:"):
+            f = a.split("|")
+            if f[0] != f[1]:
+                oracle_failures.append({"property": PID, "class": "purity", "harness_line": line[:400],
+                                        "what": "sample() and sample_to_slice() into a reused buffer differ on the same stream: %s vs %s" % (f[0][:200], f[1][:200])})
     return {
-        "evaluations": len(hist), "distinct_nontrivial": len({(h[1], tuple(h[3])) for h in hist}),
+        "evaluations": len(hist) + len(vlines), "distinct_nontrivial": len({(h[1], tuple(h[3])) for h in hist}),
         "rule": "random histories over 1-4 distribution objects of random families/parameters (all 27 samplers) and 3 seeded streams: "
                 "sample, sample_iter.take(n), clone, rebuild-from-parameters, Debug; each history is run 7 ways on the real crate (twice, with fresh "
                 "objects for every sample, with sample_iter expanded, projected onto each stream) and all outputs (value bits and stream position) "
